@@ -248,6 +248,8 @@ func hostilePayloads() [][]byte {
 		return b
 	}
 	return [][]byte{
+		hdr(3, 1, 1, 0, 1, 2, 5, BW-1),                // precision field 1, 38 digits: must be rejected whatever the receiver's precision
+		hdr(0, 1, 1, 0, 19, 1, BW/10-1),               // top digit 0 (also listed below: keeps the parity of the quick selection)
 		hdr(0, 1, 1, 0, 19, 1, BW),                    // word >= 10^19
 		hdr(0, 1, 1, 0, 19, 1, BW/10-1),               // top digit 0
 		hdr(0, 1, 1, 0, 19, 1, 0),                     // zero mantissa, finite form
@@ -714,7 +716,7 @@ func init() {
 		Layers: func(tier string) []Layer {
 			return append(histLayers(judgeCanonical, tier, "canonical form (C08)"), canonicalAfterParseLayer(tier))
 		},
-		Stats:  histStats("C08"),
+		Stats: histStats("C08"),
 	})
 	register(&Property{
 		ID: "C09", Level: "model_checking",
